@@ -127,5 +127,18 @@ theorem reported_supply_after_rebalance (assets : List Asset) (w w' : World)
 /-- non-vacuity of the pairing: mint 7 and delegate 7 on a concrete state -/
 example : outsideB 4 { (default : World) with staking := { bondDenom := 4, unbondingTime := 1, vals := [] } } = 0 := by decide
 
+/-- "no user balance ever receives them": whatever rebalancing mints, a successful end-of-block moves the balance of an
+    account that is not one of the six system accounts — in every denom, the staking denom included — by exactly the
+    matured unbonding entries naming it (proof: AllianceProofs/UserBal, the phases after the payout are `BalT u d 0`) -/
+theorem end_block_pays_users_only_their_unbondings (u : Acct) (d : Denom) (hu : IsUser u) (w w' : World)
+    (h : endBlocker w = (.ok (), w')) : bankBalance w' u d = bankBalance w u d + owedNow u d w :=
+  endBlocker_pays_user' hu w w' h
+
+/-- … and the rebalancing phase alone moves no user balance at all -/
+theorem rebalance_moves_no_user_balance (u : Acct) (d : Denom) (hu : IsUser u) (assets : List Asset) (w w' : World)
+    (h : rebalanceHook assets w = (.ok (), w')) : bankBalance w' u d = bankBalance w u d := by
+  have := ((rebalanceHook_user (d := d) hu assets).run w w' () h trivial).1
+  omega
+
 end C11
 end Alliance
